@@ -126,6 +126,29 @@ def boundary_task(t):
     return dict(n=n, distinct=n, violations=viols, sample=None)
 
 
+def escape_task(t):
+    """names holding k characters that are escaped inside a quoted string, for every k in a window (no counter, cap or fixed-size
+    scratch of an unescaping routine may show through), alone and next to a plain name, the active one or not"""
+    lo, hi = t
+    viols = []
+    n = 0
+    for k in range(lo, hi):
+        for unit in ('"', "\\", 'a"', '\\"'):
+            nm = (unit * k)[:1020]
+            for active in (None, nm, "plain"):
+                srv = refms.RefServer(store={nm: b"keep;\r\n", "plain": b"keep;\r\n"}, active=active)
+                s = wire.open_session(srv)
+                o = s.call("listscripts")
+                n += 1
+                want = sorted(x for x in (nm, "plain") if x != active)
+                ok = (o.kind == "ret" and isinstance(o.value, tuple) and len(o.value) == 2 and o.value[0] == active and sorted(o.value[1] or []) == want)
+                if not ok:
+                    viols.append({"property": "C17", "engine": "wire", "signature": ["C17", "listscripts", "escape-count:" + repr(unit), "wrong-value" if o.kind == "ret" else o.kind],
+                                  "what": "a name of %d x %r (quoted, escaped) read back as %s" % (k, unit, o.brief()[:160]), "case": {"kind": "escapes", "k": k},
+                                  "witness": "listscripts with the name %r * %d" % (unit, k), "observed": o.brief()[:120]})
+    return dict(n=n, distinct=n, violations=viols, sample=None)
+
+
 def run(tier, seed):
     maxlines = 3 if tier == "quick" else 4
     maxn = 3 if tier == "quick" else 4
@@ -138,7 +161,9 @@ def run(tier, seed):
     r1 = pool.run_tasks("checks.c17:body_task", bt)
     r2 = pool.run_tasks("checks.c17:list_task", lt)
     r3 = pool.run_tasks("checks.c17:boundary_task", [(lo, lo + 8) for lo in range(4040, 4120, 8)] + ([(lo, lo + 8) for lo in range(8130, 8220, 8)] if tier != "quick" else []))
-    res = r1 + r2 + r3
+    top = 64 if tier == "quick" else 512
+    r4 = pool.run_tasks("checks.c17:escape_task", [(lo, min(top + 1, lo + 8)) for lo in range(1, top + 1, 8)])
+    res = r1 + r2 + r3 + r4
     n = sum(r["n"] for r in res)
     viols = []
     for r in res:
@@ -153,6 +178,9 @@ def run(tier, seed):
 
 def replay(payload):
     c = payload["case"]
+    if c["kind"] == "escapes":
+        r = escape_task((c["k"], c["k"] + 1))
+        return [dict(v, signature=v["signature"]) for v in r["violations"]]
     if c["kind"].startswith("boundary"):
         r = boundary_task((c["k"], c["k"] + 1))
         return [v for v in r["violations"] if v["case"]["kind"] == c["kind"]]
